@@ -895,6 +895,17 @@ class Interp:
             return len(args[0])
         if isinstance(fn, ast.Name) and fn.id == 'sorted' and len(args) == 1 and not kwargs:
             return self.h.new_list(sorted(self.seq(args[0])))
+        if isinstance(fn, ast.Name) and fn.id == 'sorted' and 'sorted' not in env and len(args) == 1 and set(kwargs) <= {'key', 'reverse'}:
+            # sorted(xs, key=f): stable, by the key's value; a key symbol without a key function orders as the text it spells (str order)
+            items_ = self.seq(args[0])
+            kf_ = kwargs.get('key')
+            ks_ = [self.apply(kf_, [x_]) if kf_ is not None else x_ for x_ in items_]
+            ks_ = [k_.spelling if isinstance(k_, Key) else (k_.concrete() if isinstance(k_, SStr) and k_.concrete() is not None else k_) for k_ in ks_]
+            if not (all(isinstance(k_, str) for k_ in ks_) or all(isinstance(k_, int) and not isinstance(k_, bool) for k_ in ks_)
+                    or all(isinstance(k_, tuple) and all(isinstance(y_, (str, int)) for y_ in k_) for k_ in ks_)):
+                raise AnalysisError('heap model: sort keys %r' % (ks_[:3],))
+            order_ = sorted(range(len(items_)), key=lambda i_: ks_[i_], reverse=bool(kwargs.get('reverse', False)))
+            return self.h.new_list([items_[i_] for i_ in order_])
         if isinstance(fn, ast.Name) and fn.id == 'cast' and len(args) == 2:
             return args[1]
         if isinstance(fn, ast.Name) and fn.id == 'reversed' and len(args) == 1:
